@@ -117,6 +117,14 @@ pub fn replay_cos(ctx: &CosCtx, c: &Value, rep: &mut Report) {
     let net = strs(&c["net"]);
     let views = c["views"].as_array().unwrap();
     let texts: Vec<&str> = rules.iter().map(|r| r["text"].as_str().unwrap()).collect();
+    // CosParse.tla binding: is the line a rule at all?
+    if let Some(want) = c.get("parse_ok").and_then(|a| a.as_array()).and_then(|a| a.get(0)).and_then(|b| b.as_bool()) {
+        rep.evaluations += 1;
+        let got = guarded(|| adblock::lists::parse_filter(texts[0], true, Default::default()).is_ok());
+        if got != Ok(want) {
+            rep.mismatch(json!({"what": "cosmetic-parse", "rules": texts, "observed": format!("{:?}", got), "allowed": [format!("Ok({})", want)], "devs": []}));
+        }
+    }
     let mut any = false;
     for opt in [false, true] {
         let eng = match guarded(|| build(rules, &net, &ctx.resources, opt)) {
